@@ -126,6 +126,11 @@ func partList(unique bool, tree part.Ops[object], key index.Key) (tableIndexIter
 		// Doing a Get() is more efficient than constructing an iterator.
 		obj, watch, ok := tree.Get(key)
 		if ok {
+			if key == nil {
+				// A nil key is how the iterator marks "no object", but the
+				// empty key (e.g. index.String("")) is nil too.
+				key = index.Key{}
+			}
 			return &singletonTableIndexIterator{key, obj}, watch
 		}
 		return emptyTableIndexIterator, watch
